@@ -4,3 +4,9 @@ check("C15", "model_checking",
 check("C17", "model_checking",
       "all 6-/5-tuples over a 7-string alphabet (117649 + 16807 calls) through the two real finalize functions against the formula, swap invariance on every tuple, fixed-width collision tables",
       "trusted: hashlib.sha256; byte strings outside the alphabet are covered by the structured extras only", "exhaustive bounded input enumeration on the real code vs formula", "5 C17")
+check("C05", "model_checking",
+      "every byte string of length 0..2 (quick) / 0..3 (thorough) through the real decoder of every 1-byte-element integer toy group, every raw-y/sign/length combination in the window where lax and strict decoders differ on toy twisted-Edwards curves running the library's own code, constructed classes on the four shipped groups; each compared with an independent strict decoder, and pushed through finish() on started sessions",
+      "trusted: reference strict decoders; toy curves are the library's ed25519_basic.py re-parametrised through its module globals (guarded by a scan for inlined constants); on shipped groups only constructed classes, not all strings", "exhaustive input enumeration on small instances of the real code vs reference decoder", "5 C05")
+check("C13", "model_checking",
+      "fixpoint closure of element representations (type, encoding) under the public element API on every small group, then all pairs / triples / scalars in [-q,2q] against Z_q through a discrete-log table; edge multiples of Base on the shipped groups against independent arithmetic",
+      "trusted: reference arithmetic (modular ints, affine Edwards); associativity and two-scalar laws on a subset of elements when q > 40", "explicit-state closure + exhaustive law checking on small instances of the real code", "5 C13")
